@@ -195,6 +195,12 @@ func (s *Solver) restart() {
 
 func (s *Solver) check(pc []*Term, extra *Term, vars []*Term, wantModel bool) (Result, map[string]uint64) {
 	s.sync(pc)
+	if wantModel && len(vars) <= 8 {
+		// terms to evaluate (concretisation) must exist in the solver before check-sat
+		for _, v := range vars {
+			s.define(v)
+		}
+	}
 	if extra != nil {
 		s.define(extra)
 		s.send("(push 1)")
@@ -228,6 +234,10 @@ func (s *Solver) check(pc []*Term, extra *Term, vars []*Term, wantModel bool) (R
 		model = map[string]uint64{}
 		var names []string
 		for _, v := range vars {
+			if v.Op == OpConst {
+				model[constKey(v)] = v.Val
+				continue
+			}
 			if s.defined[v.ID] {
 				names = append(names, Ref(v))
 			}
@@ -255,6 +265,8 @@ func (s *Solver) check(pc []*Term, extra *Term, vars []*Term, wantModel bool) (R
 	}
 	return res, model
 }
+
+func constKey(t *Term) string { return Ref(t) }
 
 // readSexp reads one balanced s-expression (possibly multi-line).
 func (s *Solver) readSexp() (string, error) {
